@@ -795,6 +795,20 @@ func (e *ckksEnv) decodeCheck(pt *rlwe.Plaintext, s sub, truth cvec, M, sf float
 			continue
 		}
 		got, bad := fromOutput(out)
+		if bad == "" && (s.outType == "bigF" || s.outType == "bigC") {
+			// the decoded numbers belong to the caller: another use of the encoder (a second decoding of the same
+			// plaintext into another vector, at another precision) must leave them as they are
+			out2 := newOutput(s.outType, d.outLen)
+			if p2, _ := eng.Panics(func() { _ = e.ecd.DecodePublic(pt, out2, 11.5) }); !p2 {
+				again, _ := fromOutput(out)
+				same := len(again.re) == len(got.re)
+				for i := 0; same && i < len(got.re); i++ {
+					same = again.re[i].Cmp(got.re[i]) == 0 && again.im[i].Cmp(got.im[i]) == 0
+				}
+				c.Count("ckks_decoded_vectors_rechecked_after_another_call", 1)
+				c.Check(same, "C07|"+api+"|decoded-vector-changed-by-a-later-call|"+cls, func() string { return desc() })
+			}
+		}
 		if bad != "" {
 			c.Violate("C07|"+api+"|wrong-value|"+cls, desc()+": "+bad, e.cfg)
 			continue
